@@ -1,6 +1,10 @@
 package main
 
 import (
+	"hash/adler32"
+	"hash/crc32"
+	"hash/fnv"
+	"strconv"
 	"strings"
 )
 
@@ -28,7 +32,9 @@ func runSelParseStream(c *ctx) error {
 	// a list), so that a segment that keeps its text but changes its kind (field ↔ index) is seen
 	probes := []string{"m(:i1,61:i2,30:i3,31:l(i7,i8))", "l(i10,i11,m(:i5,61:i6))"}
 	probe := func(t, tag string) {
-		if !strings.HasPrefix(goParseSel(t), "ok") {
+		// (the real parser runs here, while the cases are being generated: under a time limit, so that a parser that
+		// does not return is reported by the case itself and not as a generator that hangs)
+		if r, returned := boundedGen(func() string { return goParseSel(t) }); returned && !strings.HasPrefix(r, "ok") {
 			return
 		}
 		for _, v := range probes {
@@ -68,7 +74,51 @@ func runSelParseStream(c *ctx) error {
 		}
 		emit(string(b), "parse-mutated")
 	}
+	// pairs of different valid selectors that share a 32-bit checksum (FNV-1, FNV-1a, CRC-32, Adler-32), found by a birthday
+	// search over some 400 000 texts of the form .name.name[k] and parsed one after the other: what a text parses to is a
+	// function of the text, not of what was parsed before it
+	for _, pr := range checksumTwins(8) {
+		for _, t := range []string{pr[0], pr[1], pr[0]} {
+			emit(t, "parse-checksum-twin")
+			probe(t, "parse-checksum-twin")
+		}
+	}
 	c.r.Exhaustive = true
 	c.r.ExhaustiveNote = "all strings up to the stated length over the 11-character alphabet are enumerated; mutations are sampled"
 	return nil
+}
+
+// checksumTwins returns up to perHash pairs of distinct selector texts per checksum function with equal checksums.
+func checksumTwins(perHash int) [][2]string {
+	names := []string{"a", "b", "cc", "id", "nb", "to", "sub", "tags", "name", "size", "from", "meta", "args", "items", "value", "status", "headers", "x", "y", "z",
+		"k1", "k2", "foo", "bar", "baz", "qux", "n", "m", "list", "map", "key", "val", "p", "q", "r", "s", "t", "u", "v", "w"}
+	sums := []func([]byte) uint32{
+		func(b []byte) uint32 { h := fnv.New32a(); h.Write(b); return h.Sum32() },
+		func(b []byte) uint32 { h := fnv.New32(); h.Write(b); return h.Sum32() },
+		crc32.ChecksumIEEE,
+		adler32.Checksum,
+	}
+	var out [][2]string
+	for _, sum := range sums {
+		seen := make(map[uint32]string, 1<<19)
+		found := 0
+	search:
+		for _, n1 := range names {
+			for _, n2 := range names {
+				for k := 0; k < 256; k++ {
+					t := "." + n1 + "." + n2 + "[" + strconv.Itoa(k) + "]"
+					h := sum([]byte(t))
+					if o, ok := seen[h]; ok && o != t {
+						out = append(out, [2]string{o, t})
+						if found++; found >= perHash {
+							break search
+						}
+						continue
+					}
+					seen[h] = t
+				}
+			}
+		}
+	}
+	return out
 }
